@@ -39,10 +39,32 @@ theorem cinv_init (maxTTL t0 period : Int) : CInv (CState.init maxTTL t0 period)
 
 theorem cinv_step {s s' : CState} {l : Label} (h : CInv s) (hs : cstep s l = some s') : CInv s' := by
   cases l with
-  | set k v ttl =>
+  | sNow id k v ttl =>
     simp only [cstep] at hs
     split at hs
     · cases hs
+    · cases hs
+      exact ⟨h.sub, h.stampRef, h.stampSeen, h.startedEmpty, h.now0, h.seenExpired, h.explained, h.bgCl, h.closed⟩
+  | gRead id k =>
+    simp only [cstep] at hs
+    split at hs
+    · cases hs
+    · cases hs
+      exact ⟨h.sub, h.stampRef, h.stampSeen, h.startedEmpty, h.now0, h.seenExpired, h.explained, h.bgCl, h.closed⟩
+  | gNow id k r =>
+    simp only [cstep] at hs
+    split at hs
+    · split at hs
+      · cases hs
+        exact ⟨h.sub, h.stampRef, h.stampSeen, h.startedEmpty, h.now0, h.seenExpired, h.explained, h.bgCl, h.closed⟩
+      · cases hs
+    · cases hs
+  | sStore id k v ttl =>
+    simp only [cstep] at hs
+    split at hs
+    case h_2 => cases hs
+    split at hs
+    case isFalse => cases hs
     · cases hs
       refine ⟨?_, ?_, ?_, h.startedEmpty, h.now0, ?_, ?_, h.bgCl, h.closed⟩
       · intro k0 x hx
@@ -71,11 +93,6 @@ theorem cinv_step {s s' : CState} {l : Label} (h : CInv s) (hs : cstep s l = som
         · rename_i hk
           simp only [hk, if_false] at he
           exact h.explained k0 e st he hm
-  | get k r =>
-    simp only [cstep] at hs
-    split at hs
-    · cases hs; exact h
-    · cases hs
   | delete k =>
     simp only [cstep] at hs
     cases hs
@@ -224,7 +241,8 @@ theorem cinv_step {s s' : CState} {l : Label} (h : CInv s) (hs : cstep s l = som
             · exact ⟨rfl, rfl, rfl, rfl, fun p hp => Or.inl hp⟩
           · exact ⟨rfl, rfl, rfl, rfl, fun p hp => Or.inl hp⟩
         -- every updated cleaner relates to an old one
-        have hrel : ∀ c' ∈ updCl s.cls id (fun c => if c.phase = Phase.scanning then visit s.m c k else c),
+        have hrel : ∀ c' ∈ updCl s.cls id (fun c => if c.phase = Phase.scanning then
+              { visit s.m c k with todo := c.todo.filter (fun x => x != k) } else c),
             ∃ c ∈ s.cls, c'.id = c.id ∧ c'.phase = c.phase ∧ c'.now0 = c.now0 ∧ c'.isReset = c.isReset ∧
               ∀ p ∈ c'.keys, p ∈ c.keys ∨ (c.phase = .scanning ∧
                 p.1 = k ∧ ∃ e, mget s.m k = some (e, p.2) ∧ (c.isReset = true ∨ e.exp < c.now0)) := by
@@ -280,7 +298,7 @@ theorem cinv_step {s s' : CState} {l : Label} (h : CInv s) (hs : cstep s l = som
     split at hs
     · split at hs
       · cases hs
-        have hrel : ∀ c' ∈ updCl s.cls id (fun c => if c.phase = Phase.scanning then { c with phase := Phase.deleting } else c),
+        have hrel : ∀ c' ∈ updCl s.cls id (fun c => if c.phase = Phase.scanning ∧ c.todo = [] then { c with phase := Phase.deleting } else c),
             ∃ c ∈ s.cls, c'.id = c.id ∧ c'.keys = c.keys ∧ c'.now0 = c.now0 ∧ c'.isReset = c.isReset ∧
               (c'.phase = c.phase ∨ (c.phase = .scanning ∧ c'.phase = .deleting)) := by
           intro c' hc'
@@ -288,7 +306,7 @@ theorem cinv_step {s s' : CState} {l : Label} (h : CInv s) (hs : cstep s l = som
           · exact ⟨c, hc, rfl, rfl, rfl, rfl, Or.inl rfl⟩
           · refine ⟨c, hc, ?_⟩
             split
-            · rename_i hsc; exact ⟨rfl, rfl, rfl, rfl, Or.inr ⟨hsc, rfl⟩⟩
+            · rename_i hsc; exact ⟨rfl, rfl, rfl, rfl, Or.inr ⟨hsc.1, rfl⟩⟩
             · exact ⟨rfl, rfl, rfl, rfl, Or.inl rfl⟩
         refine ⟨h.sub, h.stampRef, ?_, ?_, ?_, ?_, h.explained, ?_, h.closed⟩
         · intro c' hc' p hp
@@ -539,12 +557,461 @@ theorem cinv_step {s s' : CState} {l : Label} (h : CInv s) (hs : cstep s l = som
       exact ⟨h.sub, h.stampRef, h.stampSeen, h.startedEmpty, h.now0, h.seenExpired, h.explained, h.bgCl, h.closed⟩
     · cases hs
 
-theorem cinv_reach {maxTTL t0 period : Int} {s : CState} (h : Reach maxTTL t0 period s) : CInv s := by
-  induction h with
-  | init => exact cinv_init _ _ _
-  | step l _ hs ih => exact cinv_step ih hs
 
-/-! ### the reference map agrees with the backwards scan over the run's labels -/
+theorem findSetter_some {l : List Setter} {id : Nat} {x : Setter} (h : findSetter l id = some x) :
+    x ∈ l ∧ x.id = id := by
+  unfold findSetter at h
+  exact ⟨List.mem_of_find?_eq_some h, by simpa using List.find?_some h⟩
+
+theorem findGetter_some {l : List Getter} {id : Nat} {x : Getter} (h : findGetter l id = some x) :
+    x ∈ l ∧ x.id = id := by
+  unfold findGetter at h
+  exact ⟨List.mem_of_find?_eq_some h, by simpa using List.find?_some h⟩
+
+theorem visit_props (m : AMap SEntry) (c : Cleaner) (k : Key) :
+    (visit m c k).id = c.id ∧ (visit m c k).phase = c.phase ∧ (visit m c k).now0 = c.now0 ∧
+    (visit m c k).isReset = c.isReset ∧ (visit m c k).todo = c.todo ∧ (visit m c k).stamp0 = c.stamp0 ∧
+    (∀ p ∈ c.keys, p ∈ (visit m c k).keys) ∧
+    (c.isReset = true → ∀ e st, mget m k = some (e, st) → (k, st) ∈ (visit m c k).keys) := by
+  unfold visit
+  split
+  · rename_i e st hg
+    split
+    · refine ⟨rfl, rfl, rfl, rfl, rfl, rfl, fun p hp => List.mem_append_left _ hp, ?_⟩
+      intro _ e' st' hg'
+      rw [hg] at hg'
+      simp only [Option.some.injEq, Prod.mk.injEq] at hg'
+      simp [hg'.2]
+    · rename_i hcond
+      refine ⟨rfl, rfl, rfl, rfl, rfl, rfl, fun p hp => hp, ?_⟩
+      intro hr
+      simp [hr] at hcond
+  · rename_i hg
+    exact ⟨rfl, rfl, rfl, rfl, rfl, rfl, fun p hp => hp, fun _ e st h => by rw [hg] at h; cases h⟩
+
+/-- Second part of the invariant: callers inside `Set`/`Get`, ForEach completeness, Reset floor. -/
+structure CInvB (s : CState) : Prop where
+  setterExp : ∀ x ∈ s.setters, x.exp ≤ s.now + durNs s.maxTTL x.ttl ∧ 0 < x.ttl
+  getStamp0 : ∀ g ∈ s.getters, g.stamp0 ≤ s.stamp
+  getterOld : ∀ g ∈ s.getters, ∀ e st, mget s.ref g.k = some (e, st) → st < g.stamp0 →
+      g.read = some (e, st) ∨ e.exp < s.now ∨ (g.k, st) ∈ s.raced
+  clStamp0 : ∀ c ∈ s.cls, c.stamp0 ≤ s.stamp
+  floorLe : s.resetFloor ≤ s.stamp
+  sealedTodo : ∀ c ∈ s.cls, c.phase = .deleting → c.todo = []
+  resetTodo : ∀ c ∈ s.cls, c.isReset = true → c.phase ≠ .started → ∀ k x, mget s.m k = some x →
+      x.2 < c.stamp0 → k ∈ c.todo ∨ (k, x.2) ∈ c.keys
+  floor : ∀ k x, mget s.m k = some x → s.resetFloor ≤ x.2
+
+theorem cinvB_init (maxTTL t0 period : Int) : CInvB (CState.init maxTTL t0 period) := by
+  constructor <;> simp [CState.init, mget]
+
+theorem cinvB_step {s s' : CState} {l : Label} (hA : CInv s) (h : CInvB s)
+    (hs : cstep s l = some s') : CInvB s' := by
+  cases l with
+  | sNow id k v ttl =>
+    simp only [cstep] at hs
+    split at hs
+    · cases hs
+    · rename_i hcond
+      cases hs
+      refine ⟨?_, h.getStamp0, h.getterOld, h.clStamp0, h.floorLe, h.sealedTodo, h.resetTodo, h.floor⟩
+      intro x hx
+      rcases List.mem_cons.1 hx with rfl | hx
+      · refine ⟨Int.le_refl _, ?_⟩
+        have hb : ¬ badTTL ttl := fun hb => hcond (Or.inl hb)
+        have : ¬ ttl ≤ 0 := hb
+        show 0 < ttl
+        omega
+      · exact h.setterExp x hx
+  | sStore id k v ttl =>
+    simp only [cstep] at hs
+    split at hs
+    case h_2 => cases hs
+    split at hs
+    case isFalse => cases hs
+    · cases hs
+      refine ⟨?_, ?_, ?_, ?_, Nat.le_succ_of_le h.floorLe, h.sealedTodo, ?_, ?_⟩
+      · intro x hx; exact h.setterExp x (List.mem_filter.1 hx).1
+      · intro g hg; exact Nat.le_succ_of_le (h.getStamp0 g hg)
+      · intro g hg e st he hst
+        simp only [mget_put] at he
+        split at he
+        · simp only [Option.some.injEq, Prod.mk.injEq] at he
+          have := h.getStamp0 g hg
+          omega
+        · exact h.getterOld g hg e st he hst
+      · intro c hc; exact Nat.le_succ_of_le (h.clStamp0 c hc)
+      · intro c hc hr hp k0 x hx hlt
+        simp only [mget_put] at hx
+        split at hx
+        · simp only [Option.some.injEq] at hx
+          have := h.clStamp0 c hc
+          rw [← hx] at hlt
+          simp only at hlt
+          omega
+        · exact h.resetTodo c hc hr hp k0 x hx hlt
+      · intro k0 x hx
+        simp only [mget_put] at hx
+        split at hx
+        · simp only [Option.some.injEq] at hx
+          rw [← hx]
+          exact h.floorLe
+        · exact h.floor k0 x hx
+  | gRead id k =>
+    simp only [cstep] at hs
+    split at hs
+    · cases hs
+    · cases hs
+      refine ⟨h.setterExp, ?_, ?_, h.clStamp0, h.floorLe, h.sealedTodo, h.resetTodo, h.floor⟩
+      · intro g hg
+        rcases List.mem_cons.1 hg with rfl | hg
+        · exact Nat.le_refl _
+        · exact h.getStamp0 g hg
+      · intro g hg e st he hst
+        rcases List.mem_cons.1 hg with rfl | hg
+        · show mget s.m k = some (e, st) ∨ e.exp < s.now ∨ (k, st) ∈ s.raced
+          cases hm : mget s.m k with
+          | none => exact Or.inr (hA.explained k e st he hm)
+          | some x =>
+            have := hA.sub k x hm
+            rw [he] at this
+            left; rw [this]
+        · exact h.getterOld g hg e st he hst
+  | gNow id k r =>
+    simp only [cstep] at hs
+    split at hs
+    · split at hs
+      · cases hs
+        refine ⟨h.setterExp, ?_, ?_, h.clStamp0, h.floorLe, h.sealedTodo, h.resetTodo, h.floor⟩
+        · intro g hg; exact h.getStamp0 g (List.mem_filter.1 hg).1
+        · intro g hg; exact h.getterOld g (List.mem_filter.1 hg).1
+      · cases hs
+    · cases hs
+  | delete k =>
+    simp only [cstep] at hs
+    cases hs
+    refine ⟨h.setterExp, h.getStamp0, ?_, h.clStamp0, h.floorLe, h.sealedTodo, ?_, ?_⟩
+    · intro g hg e st he hst
+      simp only [mget_delKeys_single] at he
+      split at he
+      · cases he
+      · exact h.getterOld g hg e st he hst
+    · intro c hc hr hp k0 x hx hlt
+      simp only [mget_delKeys_single] at hx
+      split at hx
+      · cases hx
+      · exact h.resetTodo c hc hr hp k0 x hx hlt
+    · intro k0 x hx
+      simp only [mget_delKeys_single] at hx
+      split at hx
+      · cases hx
+      · exact h.floor k0 x hx
+  | advance d =>
+    simp only [cstep] at hs
+    have key : s'.m = s.m ∧ s'.ref = s.ref ∧ s'.cls = s.cls ∧ s'.stamp = s.stamp ∧ s'.raced = s.raced ∧
+        s'.now = s.now + d ∧ s'.setters = s.setters ∧ s'.getters = s.getters ∧
+        s'.resetFloor = s.resetFloor ∧ s'.maxTTL = s.maxTTL := by
+      split at hs <;> cases hs <;> simp
+    obtain ⟨h1, h2, h3, h4, h5, h6, h7, h8, h9, h10⟩ := key
+    refine ⟨?_, ?_, ?_, ?_, ?_, ?_, ?_, ?_⟩
+    · rw [h7, h6, h10]; intro x hx; have := h.setterExp x hx; exact ⟨by omega, this.2⟩
+    · rw [h8, h4]; exact h.getStamp0
+    · rw [h8, h2, h5, h6]
+      intro g hg e st he hst
+      rcases h.getterOld g hg e st he hst with h' | h' | h'
+      · exact Or.inl h'
+      · right; left; omega
+      · exact Or.inr (Or.inr h')
+    · rw [h3, h4]; exact h.clStamp0
+    · rw [h9, h4]; exact h.floorLe
+    · rw [h3]; exact h.sealedTodo
+    · rw [h3, h1]; exact h.resetTodo
+    · rw [h1, h9]; exact h.floor
+  | cBegin id r =>
+    simp only [cstep] at hs
+    split at hs
+    · cases hs
+    · cases hs
+      refine ⟨h.setterExp, h.getStamp0, h.getterOld, ?_, h.floorLe, ?_, ?_, h.floor⟩
+      · intro c hc
+        rcases List.mem_cons.1 hc with rfl | hc
+        · exact Nat.zero_le _
+        · exact h.clStamp0 c hc
+      · intro c hc hp
+        rcases List.mem_cons.1 hc with rfl | hc
+        · cases hp
+        · exact h.sealedTodo c hc hp
+      · intro c hc hr hp
+        rcases List.mem_cons.1 hc with rfl | hc
+        · exact absurd rfl hp
+        · exact h.resetTodo c hc hr hp
+  | cNow id =>
+    simp only [cstep] at hs
+    split at hs
+    · split at hs
+      · cases hs
+        refine ⟨h.setterExp, h.getStamp0, h.getterOld, ?_, h.floorLe, ?_, ?_, h.floor⟩
+        · intro c' hc'
+          obtain ⟨c, hc, hcc | ⟨_, hcc⟩⟩ := mem_updCl hc' <;> subst hcc
+          · exact h.clStamp0 c hc
+          · split
+            · exact Nat.le_refl _
+            · exact h.clStamp0 c hc
+        · intro c' hc' hp
+          obtain ⟨c, hc, hcc | ⟨_, hcc⟩⟩ := mem_updCl hc' <;> subst hcc
+          · exact h.sealedTodo c hc hp
+          · split at hp
+            · cases hp
+            · rename_i hns
+              simp only [hns, if_false]
+              exact h.sealedTodo c hc hp
+        · intro c' hc' hr hp k0 x hx hlt
+          obtain ⟨c, hc, hcc | ⟨_, hcc⟩⟩ := mem_updCl hc' <;> subst hcc
+          · exact h.resetTodo c hc hr hp k0 x hx hlt
+          · by_cases hst : c.phase = Phase.started
+            · simp only [hst, if_true]
+              left
+              exact mem_mkeys_of_mget _ _ _ hx
+            · simp only [hst, if_false] at hr hp hlt ⊢
+              exact h.resetTodo c hc hr hp k0 x hx hlt
+      · cases hs
+    · cases hs
+  | cVisit id k =>
+    simp only [cstep] at hs
+    split at hs
+    · split at hs
+      · cases hs
+        refine ⟨h.setterExp, h.getStamp0, h.getterOld, ?_, h.floorLe, ?_, ?_, h.floor⟩
+        · intro c' hc'
+          obtain ⟨c, hc, hcc | ⟨_, hcc⟩⟩ := mem_updCl hc' <;> subst hcc
+          · exact h.clStamp0 c hc
+          · split
+            · show (visit s.m c k).stamp0 ≤ s.stamp
+              rw [(visit_props s.m c k).2.2.2.2.2.1]; exact h.clStamp0 c hc
+            · exact h.clStamp0 c hc
+        · intro c' hc' hp
+          obtain ⟨c, hc, hcc | ⟨_, hcc⟩⟩ := mem_updCl hc' <;> subst hcc
+          · exact h.sealedTodo c hc hp
+          · by_cases hsc : c.phase = Phase.scanning
+            · simp only [hsc, if_true] at hp
+              have : (visit s.m c k).phase = Phase.deleting := hp
+              rw [(visit_props s.m c k).2.1, hsc] at this
+              cases this
+            · simp only [hsc, if_false] at hp ⊢
+              exact h.sealedTodo c hc hp
+        · intro c' hc' hr hp k0 x hx hlt
+          obtain ⟨c, hc, hcc | ⟨_, hcc⟩⟩ := mem_updCl hc' <;> subst hcc
+          · exact h.resetTodo c hc hr hp k0 x hx hlt
+          · by_cases hsc : c.phase = Phase.scanning
+            · simp only [hsc, if_true] at hr hlt ⊢
+              obtain ⟨_, _, _, hre, _, hst0, hkeep, hcol⟩ := visit_props s.m c k
+              have hr' : c.isReset = true := by rw [← hre]; exact hr
+              have hlt' : x.2 < c.stamp0 := by rw [← hst0]; exact hlt
+              have hp' : c.phase ≠ Phase.started := by rw [hsc]; decide
+              show k0 ∈ c.todo.filter (fun y => y != k) ∨ (k0, x.2) ∈ (visit s.m c k).keys
+              rcases h.resetTodo c hc hr' hp' k0 x hx hlt' with h1 | h1
+              · by_cases hk : k0 = k
+                · subst hk
+                  right
+                  exact hcol hr' x.1 x.2 hx
+                · left
+                  exact List.mem_filter.2 ⟨h1, by simpa using hk⟩
+              · exact Or.inr (hkeep _ h1)
+            · simp only [hsc, if_false] at hr hp hlt ⊢
+              exact h.resetTodo c hc hr hp k0 x hx hlt
+      · cases hs
+    · cases hs
+  | cSeal id =>
+    simp only [cstep] at hs
+    split at hs
+    · split at hs
+      · cases hs
+        refine ⟨h.setterExp, h.getStamp0, h.getterOld, ?_, h.floorLe, ?_, ?_, h.floor⟩
+        · intro c' hc'
+          obtain ⟨c, hc, hcc | ⟨_, hcc⟩⟩ := mem_updCl hc' <;> subst hcc
+          · exact h.clStamp0 c hc
+          · split <;> exact h.clStamp0 c hc
+        · intro c' hc' hp
+          obtain ⟨c, hc, hcc | ⟨_, hcc⟩⟩ := mem_updCl hc' <;> subst hcc
+          · exact h.sealedTodo c hc hp
+          · split
+            · rename_i hcond; exact hcond.2
+            · rename_i hcond
+              simp only [hcond, if_false] at hp
+              exact h.sealedTodo c hc hp
+        · intro c' hc' hr hp k0 x hx hlt
+          obtain ⟨c, hc, hcc | ⟨_, hcc⟩⟩ := mem_updCl hc' <;> subst hcc
+          · exact h.resetTodo c hc hr hp k0 x hx hlt
+          · by_cases hcond : c.phase = Phase.scanning ∧ c.todo = []
+            · simp only [hcond, and_self, if_true] at hr hlt ⊢
+              have := h.resetTodo c hc hr (by rw [hcond.1]; decide) k0 x hx hlt
+              simpa [hcond.2] using this
+            · simp only [hcond, if_false] at hr hp hlt ⊢
+              exact h.resetTodo c hc hr hp k0 x hx hlt
+      · cases hs
+    · cases hs
+  | cDelOne id k st =>
+    simp only [cstep] at hs
+    split at hs
+    · rename_i c0 hfind
+      split at hs
+      · have hrel : ∀ c' ∈ updCl s.cls id (fun c => { c with keys := c.keys.filter (fun p => p != (k, st)) }),
+            ∃ c ∈ s.cls, c'.phase = c.phase ∧ c'.isReset = c.isReset ∧ c'.todo = c.todo ∧ c'.stamp0 = c.stamp0 ∧
+              ∀ p ∈ c.keys, p.1 ≠ k → p ∈ c'.keys := by
+          intro c' hc'
+          obtain ⟨c, hc, hcc | ⟨_, hcc⟩⟩ := mem_updCl hc' <;> subst hcc
+          · exact ⟨c, hc, rfl, rfl, rfl, rfl, fun p hp _ => hp⟩
+          · refine ⟨c, hc, rfl, rfl, rfl, rfl, fun p hp hne => List.mem_filter.2 ⟨hp, ?_⟩⟩
+            have : p ≠ (k, st) := fun hh => hne (by rw [hh])
+            simpa using this
+        -- generic part
+        have gen : ∀ (s2 : CState),
+            s2.cls = updCl s.cls id (fun c => { c with keys := c.keys.filter (fun p => p != (k, st)) }) →
+            s2.stamp = s.stamp → s2.resetFloor = s.resetFloor →
+            (∀ k0 x, mget s2.m k0 = some x → k0 ≠ k ∧ mget s.m k0 = some x) →
+            (∀ c ∈ s2.cls, c.stamp0 ≤ s2.stamp) ∧ s2.resetFloor ≤ s2.stamp ∧
+            (∀ c ∈ s2.cls, c.phase = .deleting → c.todo = []) ∧
+            (∀ c ∈ s2.cls, c.isReset = true → c.phase ≠ .started → ∀ k0 x, mget s2.m k0 = some x →
+              x.2 < c.stamp0 → k0 ∈ c.todo ∨ (k0, x.2) ∈ c.keys) ∧
+            (∀ k0 x, mget s2.m k0 = some x → s2.resetFloor ≤ x.2) := by
+          intro s2 e1 e2 e3 hm
+          rw [e1, e2, e3]
+          refine ⟨?_, h.floorLe, ?_, ?_, ?_⟩
+          · intro c' hc'
+            obtain ⟨c, hc, _, _, _, h0, _⟩ := hrel c' hc'
+            rw [h0]; exact h.clStamp0 c hc
+          · intro c' hc' hp
+            obtain ⟨c, hc, hph, _, htd, _, _⟩ := hrel c' hc'
+            rw [htd]; exact h.sealedTodo c hc (hph ▸ hp)
+          · intro c' hc' hr hp k0 x hx hlt
+            obtain ⟨c, hc, hph, hre, htd, h0, hk⟩ := hrel c' hc'
+            obtain ⟨hne, hx'⟩ := hm k0 x hx
+            rcases h.resetTodo c hc (hre ▸ hr) (hph ▸ hp) k0 x hx' (h0 ▸ hlt) with h1 | h1
+            · left; rw [htd]; exact h1
+            · right; exact hk _ h1 hne
+          · intro k0 x hx
+            exact h.floor k0 x (hm k0 x hx).2
+        have hdel : ∀ k0 x, mget (mdelKeys s.m [k]) k0 = some x → k0 ≠ k ∧ mget s.m k0 = some x := by
+          intro k0 x hx
+          simp only [mget_delKeys_single] at hx
+          split at hx
+          · cases hx
+          · rename_i hk; exact ⟨hk, hx⟩
+        split at hs
+        · rename_i hnone
+          cases hs
+          obtain ⟨a1, a2, a3, a4, a5⟩ := gen
+            { s with cls := updCl s.cls id (fun c => { c with keys := c.keys.filter (fun p => p != (k, st)) }) }
+            rfl rfl rfl (fun k0 x hx => ⟨(fun hk => by rw [hk, hnone] at hx; cases hx), hx⟩)
+          exact ⟨h.setterExp, h.getStamp0, h.getterOld, a1, a2, a3, a4, a5⟩
+        · split at hs
+          · cases hs
+            obtain ⟨a1, a2, a3, a4, a5⟩ := gen
+              { s with m := mdelKeys s.m [k],
+                       cls := updCl s.cls id (fun c => { c with keys := c.keys.filter (fun p => p != (k, st)) }),
+                       ref := if c0.isReset = true then mdelKeys s.ref [k] else s.ref }
+              rfl rfl rfl hdel
+            refine ⟨h.setterExp, h.getStamp0, ?_, a1, a2, a3, a4, a5⟩
+            intro g hg e st2 he hst
+            have he' : mget (if c0.isReset = true then mdelKeys s.ref [k] else s.ref) g.k = some (e, st2) := he
+            have he2 : mget s.ref g.k = some (e, st2) := by
+              split at he'
+              · simp only [mget_delKeys_single] at he'
+                split at he'
+                · cases he'
+                · exact he'
+              · exact he'
+            exact h.getterOld g hg e st2 he2 hst
+          · rename_i e0 st' _ _
+            cases hs
+            obtain ⟨a1, a2, a3, a4, a5⟩ := gen
+              { s with m := mdelKeys s.m [k],
+                       cls := updCl s.cls id (fun c => { c with keys := c.keys.filter (fun p => p != (k, st)) }),
+                       raced := (k, st') :: s.raced }
+              rfl rfl rfl hdel
+            refine ⟨h.setterExp, h.getStamp0, ?_, a1, a2, a3, a4, a5⟩
+            intro g hg e st2 he hst
+            rcases h.getterOld g hg e st2 he hst with h' | h' | h'
+            · exact Or.inl h'
+            · exact Or.inr (Or.inl h')
+            · exact Or.inr (Or.inr (List.mem_cons_of_mem _ h'))
+      · cases hs
+    · cases hs
+  | cEnd id =>
+    simp only [cstep] at hs
+    split at hs
+    · rename_i c0 hfind
+      obtain ⟨hc0, _⟩ := findCl_some hfind
+      split at hs
+      · rename_i hcond
+        cases hs
+        have hsubl : ∀ c ∈ s.cls.filter (fun c => c.id != id), c ∈ s.cls :=
+          fun c hc => (List.mem_filter.1 hc).1
+        refine ⟨h.setterExp, h.getStamp0, h.getterOld, ?_, ?_, ?_, ?_, ?_⟩
+        · intro c hc; exact h.clStamp0 c (hsubl c hc)
+        · show (if c0.isReset = true then max s.resetFloor c0.stamp0 else s.resetFloor) ≤ s.stamp
+          have := h.clStamp0 c0 hc0
+          have := h.floorLe
+          split <;> omega
+        · intro c hc; exact h.sealedTodo c (hsubl c hc)
+        · intro c hc; exact h.resetTodo c (hsubl c hc)
+        · intro k0 x hx
+          show (if c0.isReset = true then max s.resetFloor c0.stamp0 else s.resetFloor) ≤ x.2
+          have hf := h.floor k0 x hx
+          split
+          · rename_i hr
+            have : ¬ x.2 < c0.stamp0 := by
+              intro hlt
+              have htd := h.sealedTodo c0 hc0 hcond.1
+              rcases h.resetTodo c0 hc0 hr (by rw [hcond.1]; decide) k0 x hx hlt with h1 | h1
+              · rw [htd] at h1; cases h1
+              · rw [hcond.2] at h1; cases h1
+            omega
+          · exact hf
+      · cases hs
+    · cases hs
+  | bgTake =>
+    simp only [cstep] at hs
+    split at hs
+    · cases hs
+      refine ⟨h.setterExp, h.getStamp0, h.getterOld, ?_, h.floorLe, ?_, ?_, h.floor⟩
+      · intro c hc
+        rcases List.mem_cons.1 hc with rfl | hc
+        · exact Nat.zero_le _
+        · exact h.clStamp0 c hc
+      · intro c hc hp
+        rcases List.mem_cons.1 hc with rfl | hc
+        · cases hp
+        · exact h.sealedTodo c hc hp
+      · intro c hc hr hp
+        rcases List.mem_cons.1 hc with rfl | hc
+        · exact absurd rfl hp
+        · exact h.resetTodo c hc hr hp
+    · cases hs
+  | bgExit =>
+    simp only [cstep] at hs
+    split at hs
+    · cases hs; exact ⟨h.setterExp, h.getStamp0, h.getterOld, h.clStamp0, h.floorLe, h.sealedTodo, h.resetTodo, h.floor⟩
+    · cases hs
+  | stopCall caller =>
+    simp only [cstep] at hs
+    split at hs
+    · cases hs
+    · cases hs; exact ⟨h.setterExp, h.getStamp0, h.getterOld, h.clStamp0, h.floorLe, h.sealedTodo, h.resetTodo, h.floor⟩
+  | stopReturn caller =>
+    simp only [cstep] at hs
+    split at hs
+    · cases hs; exact ⟨h.setterExp, h.getStamp0, h.getterOld, h.clStamp0, h.floorLe, h.sealedTodo, h.resetTodo, h.floor⟩
+    · cases hs
+
+theorem cinv_reach {maxTTL t0 period : Int} {s : CState} (h : Reach maxTTL t0 period s) :
+    CInv s ∧ CInvB s := by
+  induction h with
+  | init => exact ⟨cinv_init _ _ _, cinvB_init _ _ _⟩
+  | step l _ hs ih => exact ⟨cinv_step ih.1 hs, cinvB_step ih.1 ih.2 hs⟩
+
+/-! ### the reference map (and what a pending `Get` has read) agree with the backwards scan over
+the run's labels -/
 
 /-- History (most recent first) extended by one label. -/
 def projCons (l : Label) (hrev : List Op) : List Op :=
@@ -552,28 +1019,45 @@ def projCons (l : Label) (hrev : List Op) : List Op :=
   | some o => o :: hrev
   | none => hrev
 
-/-- `ref` versus the scan `lastLive` over the callers' labels so far. -/
-def RefAgree (M : Int) (s : CState) (hrev : List Op) : Prop :=
-  s.maxTTL = M ∧ ∀ k x, mget s.ref k = some x →
-    ∃ ttl el, lastLive k hrev 0 = some (x.1.val, ttl, el) ∧ x.1.exp = s.now - (el : Int) + durNs M ttl
+/-- `ref`, and the entries pending `Get`s have read, versus the scan `lastLive` over the callers'
+labels so far. A `Set` stamps its expiry from the clock it read *before* storing, so the stored
+expiry is at most (store time + ttl). -/
+structure RefAgree (M : Int) (s : CState) (hrev : List Op) : Prop where
+  max : s.maxTTL = M
+  ref : ∀ k x, mget s.ref k = some x →
+    ∃ ttl el, lastLive k hrev 0 = some (x.1.val, ttl, el) ∧ x.1.exp ≤ s.now - (el : Int) + durNs M ttl
+  get : ∀ g ∈ s.getters, ∀ x, g.read = some x →
+    ∃ hnew hpre, hrev = hnew ++ hpre ∧ ∃ ttl el, lastLive g.k hpre 0 = some (x.1.val, ttl, el) ∧
+      x.1.exp + (advSum hnew : Int) ≤ s.now - (el : Int) + durNs M ttl
 
-/-- Labels that are not caller operations leave clock and configuration alone and can only
-shrink `ref`. -/
-theorem cstep_frame {s s' : CState} {l : Label} (hs : cstep s l = some s') (hp : projOp l = none) :
-    s'.now = s.now ∧ s'.maxTTL = s.maxTTL ∧ ∀ k x, mget s'.ref k = some x → mget s.ref k = some x := by
+/-- Labels that are neither caller operations nor a `Get`'s map read leave clock and configuration
+alone, can only shrink `ref`, and add no pending `Get`. -/
+theorem cstep_frame {s s' : CState} {l : Label} (hs : cstep s l = some s') (hp : projOp l = none)
+    (hg : ∀ id k, l ≠ .gRead id k) :
+    s'.now = s.now ∧ s'.maxTTL = s.maxTTL ∧ (∀ k x, mget s'.ref k = some x → mget s.ref k = some x) ∧
+    (∀ g ∈ s'.getters, g ∈ s.getters) := by
   cases l
-  case set => simp [projOp] at hp
+  case sStore => simp [projOp] at hp
   case delete => simp [projOp] at hp
   case advance => simp [projOp] at hp
+  case gRead id k => exact absurd rfl (hg id k)
+  case gNow id k r =>
+    simp only [cstep] at hs
+    split at hs
+    · split at hs
+      · cases hs
+        exact ⟨rfl, rfl, fun _ _ h => h, fun g hg => (List.mem_filter.1 hg).1⟩
+      · cases hs
+    · cases hs
   case cDelOne id k st =>
     simp only [cstep] at hs
     split at hs
     · split at hs
       · split at hs
-        · cases hs; exact ⟨rfl, rfl, fun _ _ h => h⟩
+        · cases hs; exact ⟨rfl, rfl, fun _ _ h => h, fun _ h => h⟩
         · split at hs
           · cases hs
-            refine ⟨rfl, rfl, fun k0 x hx => ?_⟩
+            refine ⟨rfl, rfl, fun k0 x hx => ?_, fun _ h => h⟩
             have hx' : mget (if (_ : Cleaner).isReset = true then mdelKeys s.ref [k] else s.ref) k0 = some x := hx
             split at hx'
             · simp only [mget_delKeys_single] at hx'
@@ -581,124 +1065,167 @@ theorem cstep_frame {s s' : CState} {l : Label} (hs : cstep s l = some s') (hp :
               · cases hx'
               · exact hx'
             · exact hx'
-          · cases hs; exact ⟨rfl, rfl, fun _ _ h => h⟩
+          · cases hs; exact ⟨rfl, rfl, fun _ _ h => h, fun _ h => h⟩
       · cases hs
     · cases hs
   all_goals
     simp only [cstep] at hs
     repeat' split at hs
     all_goals first
-      | (cases hs; exact ⟨rfl, rfl, fun _ _ h => h⟩)
+      | (cases hs; exact ⟨rfl, rfl, fun _ _ h => h, fun _ h => h⟩)
       | cases hs
 
 theorem refAgree_init (maxTTL t0 period : Int) : RefAgree maxTTL (CState.init maxTTL t0 period) [] :=
-  ⟨rfl, fun k x h => by simp [CState.init, mget] at h⟩
+  ⟨rfl, fun k x h => by simp [CState.init, mget] at h, fun g hg => by simp [CState.init] at hg⟩
+
+theorem advSum_cons_nonadv (o : Op) (h : List Op) (hno : ∀ d, o ≠ .advance d) :
+    advSum (o :: h) = advSum h := by
+  cases o <;> simp [advSum] <;> exact absurd rfl (hno _)
 
 theorem refAgree_step {M : Int} {s s' : CState} {l : Label} {hrev : List Op}
-    (h : RefAgree M s hrev) (hs : cstep s l = some s') : RefAgree M s' (projCons l hrev) := by
-  obtain ⟨hM, hR⟩ := h
-  cases hp : projOp l with
-  | none =>
-    obtain ⟨h1, h2, h3⟩ := cstep_frame hs hp
-    simp only [projCons, hp]
-    refine ⟨h2 ▸ hM, fun k x hx => ?_⟩
-    rw [h1]
-    exact hR k x (h3 k x hx)
-  | some o =>
-    cases l with
-    | set k v ttl =>
-      simp only [projOp, Option.some.injEq] at hp
-      subst hp
-      simp only [projCons, projOp]
-      simp only [cstep] at hs
-      split at hs
-      · cases hs
-      · rename_i hb
-        have hpos : 0 < ttl := by
-          have : ¬ ttl ≤ 0 := hb
-          omega
-        cases hs
-        refine ⟨hM, fun k0 x hx => ?_⟩
-        simp only [mget_put] at hx
-        by_cases hk : k0 = k
-        · subst hk
-          simp only [if_true, Option.some.injEq] at hx
-          subst hx
-          refine ⟨ttl, 0, by simp [lastLive, hpos], ?_⟩
-          simp [hM]
-        · simp only [hk, if_false] at hx
-          obtain ⟨t, el, h1, h2⟩ := hR k0 x hx
-          refine ⟨t, el, ?_, h2⟩
-          have : ¬ (k = k0 ∧ 0 < ttl) := fun hh => hk hh.1.symm
-          simp only [lastLive, this, if_false]
-          exact h1
-    | delete k =>
-      simp only [projOp, Option.some.injEq] at hp
-      subst hp
-      simp only [projCons, projOp]
-      simp only [cstep] at hs
-      cases hs
-      refine ⟨hM, fun k0 x hx => ?_⟩
-      simp only [mget_delKeys_single] at hx
-      split at hx
-      · cases hx
+    (hA : CInv s) (hB : CInvB s) (h : RefAgree M s hrev) (hs : cstep s l = some s') :
+    RefAgree M s' (projCons l hrev) := by
+  obtain ⟨hM, hR, hG⟩ := h
+  cases l with
+  | sStore id k v ttl =>
+    simp only [projCons, projOp]
+    simp only [cstep] at hs
+    split at hs
+    case h_2 => cases hs
+    rename_i x hfind
+    split at hs
+    case isFalse => cases hs
+    rename_i hcond
+    obtain ⟨hxm, _⟩ := findSetter_some hfind
+    obtain ⟨hexp, hpos⟩ := hB.setterExp x hxm
+    rw [hcond.2.2, hM] at hexp
+    rw [hcond.2.2] at hpos
+    cases hs
+    refine ⟨hM, fun k0 y hy => ?_, fun g hg y hy => ?_⟩
+    · simp only [mget_put] at hy
+      by_cases hk : k0 = k
+      · subst hk
+        simp only [if_true, Option.some.injEq] at hy
+        subst hy
+        refine ⟨ttl, 0, by simp [lastLive, hpos], ?_⟩
+        simpa using hexp
+      · simp only [hk, if_false] at hy
+        obtain ⟨t, el, h1, h2⟩ := hR k0 y hy
+        refine ⟨t, el, ?_, h2⟩
+        have : ¬ (k = k0 ∧ 0 < ttl) := fun hh => hk hh.1.symm
+        simp only [lastLive, this, if_false]
+        exact h1
+    · obtain ⟨hnew, hpre, h1, t, el, h2, h3⟩ := hG g hg y hy
+      refine ⟨Op.set k v ttl :: hnew, hpre, by rw [h1]; rfl, t, el, h2, ?_⟩
+      rw [advSum_cons_nonadv _ _ (fun d => by simp)]
+      exact h3
+  | delete k =>
+    simp only [projCons, projOp]
+    simp only [cstep] at hs
+    cases hs
+    refine ⟨hM, fun k0 y hy => ?_, fun g hg y hy => ?_⟩
+    · simp only [mget_delKeys_single] at hy
+      split at hy
+      · cases hy
       · rename_i hk
-        obtain ⟨t, el, h1, h2⟩ := hR k0 x hx
+        obtain ⟨t, el, h1, h2⟩ := hR k0 y hy
         refine ⟨t, el, ?_, h2⟩
         have : ¬ k = k0 := fun hh => hk hh.symm
         simp only [lastLive, this, if_false]
         exact h1
-    | advance d =>
-      simp only [projOp, Option.some.injEq] at hp
-      subst hp
-      simp only [projCons, projOp]
-      simp only [cstep] at hs
-      have key : s'.ref = s.ref ∧ s'.now = s.now + d ∧ s'.maxTTL = s.maxTTL := by
-        split at hs <;> cases hs <;> simp
-      obtain ⟨h1, h2, h3⟩ := key
-      refine ⟨h3 ▸ hM, fun k0 x hx => ?_⟩
-      rw [h1] at hx
-      obtain ⟨t, el, h4, h5⟩ := hR k0 x hx
+    · obtain ⟨hnew, hpre, h1, t, el, h2, h3⟩ := hG g hg y hy
+      refine ⟨Op.delete k :: hnew, hpre, by rw [h1]; rfl, t, el, h2, ?_⟩
+      rw [advSum_cons_nonadv _ _ (fun d => by simp)]
+      exact h3
+  | advance d =>
+    simp only [projCons, projOp]
+    simp only [cstep] at hs
+    have key : s'.ref = s.ref ∧ s'.now = s.now + d ∧ s'.maxTTL = s.maxTTL ∧ s'.getters = s.getters := by
+      split at hs <;> cases hs <;> simp
+    obtain ⟨h1, h2, h3, h4⟩ := key
+    refine ⟨h3 ▸ hM, fun k0 y hy => ?_, fun g hg y hy => ?_⟩
+    · rw [h1] at hy
+      obtain ⟨t, el, h5, h6⟩ := hR k0 y hy
       refine ⟨t, el + d, ?_, ?_⟩
       · simp only [lastLive]
-        rw [lastLive_acc, h4]
+        rw [lastLive_acc, h5]
         simp
-      · rw [h2, h5]
+      · rw [h2]
         simp only [Int.natCast_add]
         omega
-    | get _ _ => simp [projOp] at hp
-    | cBegin _ _ => simp [projOp] at hp
-    | cNow _ => simp [projOp] at hp
-    | cVisit _ _ => simp [projOp] at hp
-    | cSeal _ => simp [projOp] at hp
-    | cDelOne _ _ _ => simp [projOp] at hp
-    | cEnd _ => simp [projOp] at hp
-    | bgTake => simp [projOp] at hp
-    | bgExit => simp [projOp] at hp
-    | stopCall _ => simp [projOp] at hp
-    | stopReturn _ => simp [projOp] at hp
+    · rw [h4] at hg
+      obtain ⟨hnew, hpre, h5, t, el, h6, h7⟩ := hG g hg y hy
+      refine ⟨Op.advance d :: hnew, hpre, by rw [h5]; rfl, t, el, h6, ?_⟩
+      rw [h2]
+      simp only [advSum, Int.natCast_add]
+      omega
+  | gRead id k =>
+    simp only [projCons, projOp]
+    simp only [cstep] at hs
+    split at hs
+    · cases hs
+    · cases hs
+      refine ⟨hM, hR, fun g hg y hy => ?_⟩
+      rcases List.mem_cons.1 hg with rfl | hg
+      · have hy' : mget s.m k = some y := hy
+        obtain ⟨t, el, h1, h2⟩ := hR k y (hA.sub k y hy')
+        exact ⟨[], hrev, rfl, t, el, h1, by simpa [advSum] using h2⟩
+      · exact hG g hg y hy
+  | sNow id k v ttl =>
+    obtain ⟨h1, h2, h3, h4⟩ := cstep_frame hs rfl (fun _ _ => by simp)
+    exact ⟨h2 ▸ hM, fun k0 y hy => by rw [h1]; exact hR k0 y (h3 k0 y hy),
+           fun g hg y hy => by rw [h1]; exact hG g (h4 g hg) y hy⟩
+  | gNow id k r =>
+    obtain ⟨h1, h2, h3, h4⟩ := cstep_frame hs rfl (fun _ _ => by simp)
+    exact ⟨h2 ▸ hM, fun k0 y hy => by rw [h1]; exact hR k0 y (h3 k0 y hy),
+           fun g hg y hy => by rw [h1]; exact hG g (h4 g hg) y hy⟩
+  | cBegin id r =>
+    obtain ⟨h1, h2, h3, h4⟩ := cstep_frame hs rfl (fun _ _ => by simp)
+    exact ⟨h2 ▸ hM, fun k0 y hy => by rw [h1]; exact hR k0 y (h3 k0 y hy),
+           fun g hg y hy => by rw [h1]; exact hG g (h4 g hg) y hy⟩
+  | cNow id =>
+    obtain ⟨h1, h2, h3, h4⟩ := cstep_frame hs rfl (fun _ _ => by simp)
+    exact ⟨h2 ▸ hM, fun k0 y hy => by rw [h1]; exact hR k0 y (h3 k0 y hy),
+           fun g hg y hy => by rw [h1]; exact hG g (h4 g hg) y hy⟩
+  | cVisit id k =>
+    obtain ⟨h1, h2, h3, h4⟩ := cstep_frame hs rfl (fun _ _ => by simp)
+    exact ⟨h2 ▸ hM, fun k0 y hy => by rw [h1]; exact hR k0 y (h3 k0 y hy),
+           fun g hg y hy => by rw [h1]; exact hG g (h4 g hg) y hy⟩
+  | cSeal id =>
+    obtain ⟨h1, h2, h3, h4⟩ := cstep_frame hs rfl (fun _ _ => by simp)
+    exact ⟨h2 ▸ hM, fun k0 y hy => by rw [h1]; exact hR k0 y (h3 k0 y hy),
+           fun g hg y hy => by rw [h1]; exact hG g (h4 g hg) y hy⟩
+  | cDelOne id k st =>
+    obtain ⟨h1, h2, h3, h4⟩ := cstep_frame hs rfl (fun _ _ => by simp)
+    exact ⟨h2 ▸ hM, fun k0 y hy => by rw [h1]; exact hR k0 y (h3 k0 y hy),
+           fun g hg y hy => by rw [h1]; exact hG g (h4 g hg) y hy⟩
+  | cEnd id =>
+    obtain ⟨h1, h2, h3, h4⟩ := cstep_frame hs rfl (fun _ _ => by simp)
+    exact ⟨h2 ▸ hM, fun k0 y hy => by rw [h1]; exact hR k0 y (h3 k0 y hy),
+           fun g hg y hy => by rw [h1]; exact hG g (h4 g hg) y hy⟩
+  | bgTake =>
+    obtain ⟨h1, h2, h3, h4⟩ := cstep_frame hs rfl (fun _ _ => by simp)
+    exact ⟨h2 ▸ hM, fun k0 y hy => by rw [h1]; exact hR k0 y (h3 k0 y hy),
+           fun g hg y hy => by rw [h1]; exact hG g (h4 g hg) y hy⟩
+  | bgExit =>
+    obtain ⟨h1, h2, h3, h4⟩ := cstep_frame hs rfl (fun _ _ => by simp)
+    exact ⟨h2 ▸ hM, fun k0 y hy => by rw [h1]; exact hR k0 y (h3 k0 y hy),
+           fun g hg y hy => by rw [h1]; exact hG g (h4 g hg) y hy⟩
+  | stopCall c =>
+    obtain ⟨h1, h2, h3, h4⟩ := cstep_frame hs rfl (fun _ _ => by simp)
+    exact ⟨h2 ▸ hM, fun k0 y hy => by rw [h1]; exact hR k0 y (h3 k0 y hy),
+           fun g hg y hy => by rw [h1]; exact hG g (h4 g hg) y hy⟩
+  | stopReturn c =>
+    obtain ⟨h1, h2, h3, h4⟩ := cstep_frame hs rfl (fun _ _ => by simp)
+    exact ⟨h2 ▸ hM, fun k0 y hy => by rw [h1]; exact hR k0 y (h3 k0 y hy),
+           fun g hg y hy => by rw [h1]; exact hG g (h4 g hg) y hy⟩
 
 theorem projCons_rev (l : Label) (ls : List Label) (hrev : List Op) :
     ((l :: ls).filterMap projOp).reverse ++ hrev = (ls.filterMap projOp).reverse ++ projCons l hrev := by
   unfold projCons
   cases hp : projOp l with
-  | none => simp [List.filterMap_cons, hp]
-  | some o => simp [List.filterMap_cons, hp]
-
-theorem refAgree_run {M : Int} : ∀ (ls : List Label) (s s' : CState) (hrev : List Op),
-    RefAgree M s hrev → crun s ls = some s' → RefAgree M s' ((ls.filterMap projOp).reverse ++ hrev) := by
-  intro ls
-  induction ls with
-  | nil => intro s s' hrev h hr; simp only [crun, Option.some.injEq] at hr; subst hr; simpa using h
-  | cons l ls ih =>
-    intro s s' hrev h hr
-    simp only [crun] at hr
-    cases hst : cstep s l with
-    | none => simp [hst] at hr
-    | some s1 =>
-      simp only [hst] at hr
-      rw [projCons_rev]
-      exact ih s1 s' _ (refAgree_step h hst) hr
+  | none => simp [hp]
+  | some o => simp [hp]
 
 theorem reach_of_crun {maxTTL t0 period : Int} : ∀ (ls : List Label) (a b : CState),
     Reach maxTTL t0 period a → crun a ls = some b → Reach maxTTL t0 period b := by
@@ -713,5 +1240,268 @@ theorem reach_of_crun {maxTTL t0 period : Int} : ∀ (ls : List Label) (a b : CS
     | some a' =>
       simp only [hst] at h
       exact ih a' b (Reach.step _ ha hst) h
+
+theorem refAgree_run {M maxTTL t0 period : Int} : ∀ (ls : List Label) (s s' : CState) (hrev : List Op),
+    Reach maxTTL t0 period s → RefAgree M s hrev → crun s ls = some s' →
+    RefAgree M s' ((ls.filterMap projOp).reverse ++ hrev) := by
+  intro ls
+  induction ls with
+  | nil => intro s s' hrev _ h hr; simp only [crun, Option.some.injEq] at hr; subst hr; simpa using h
+  | cons l ls ih =>
+    intro s s' hrev hreach h hr
+    simp only [crun] at hr
+    cases hst : cstep s l with
+    | none => simp [hst] at hr
+    | some s1 =>
+      simp only [hst] at hr
+      rw [projCons_rev]
+      have hI := cinv_reach hreach
+      exact ih s1 s' _ (Reach.step _ hreach hst) (refAgree_step hI.1 hI.2 h hst) hr
+
+
+/-! ### a key nobody touches -/
+
+/-- `k`'s reference entry `(e, st)` is intact: not raced, no Reset in flight, and every cleaner that
+has collected `k` saw this very entry. -/
+structure Intact (s : CState) (k : Key) (e : Entry) (st : Nat) : Prop where
+  ref : mget s.ref k = some (e, st)
+  notRaced : (k, st) ∉ s.raced
+  noReset : ∀ c ∈ s.cls, c.isReset = false
+  seen : ∀ c ∈ s.cls, ∀ p ∈ c.keys, p.1 = k → p.2 = st
+
+/-- The label touches key `k` (stores or deletes it) or starts a Reset. -/
+def Touches (k : Key) : Label → Prop
+  | .sStore _ k' _ _ => k' = k
+  | .delete k' => k' = k
+  | .cBegin _ r => r = true
+  | _ => False
+
+theorem intact_step {s s' : CState} {l : Label} {k : Key} {e : Entry} {st : Nat}
+    (hA : CInv s) (h : Intact s k e st) (hs : cstep s l = some s') (hnt : ¬ Touches k l) :
+    Intact s' k e st := by
+  obtain ⟨hr, hnr, hre, hseen⟩ := h
+  cases l with
+  | sNow id k0 v ttl =>
+    simp only [cstep] at hs
+    split at hs
+    · cases hs
+    · cases hs; exact ⟨hr, hnr, hre, hseen⟩
+  | sStore id k0 v ttl =>
+    have hk : k ≠ k0 := fun hh => hnt hh.symm
+    simp only [cstep] at hs
+    split at hs
+    case h_2 => cases hs
+    split at hs
+    case isFalse => cases hs
+    cases hs
+    exact ⟨by simp [mget_put, hk, hr], hnr, hre, hseen⟩
+  | gRead id k0 =>
+    simp only [cstep] at hs
+    split at hs
+    · cases hs
+    · cases hs; exact ⟨hr, hnr, hre, hseen⟩
+  | gNow id k0 r =>
+    simp only [cstep] at hs
+    split at hs
+    · split at hs
+      · cases hs; exact ⟨hr, hnr, hre, hseen⟩
+      · cases hs
+    · cases hs
+  | delete k0 =>
+    have hk : k ≠ k0 := fun hh => hnt hh.symm
+    simp only [cstep] at hs
+    cases hs
+    exact ⟨by simp [mget_delKeys_single, hk, hr], hnr, hre, hseen⟩
+  | advance d =>
+    simp only [cstep] at hs
+    have key : s'.ref = s.ref ∧ s'.raced = s.raced ∧ s'.cls = s.cls := by
+      split at hs <;> cases hs <;> simp
+    obtain ⟨h1, h2, h3⟩ := key
+    exact ⟨h1 ▸ hr, h2 ▸ hnr, h3 ▸ hre, h3 ▸ hseen⟩
+  | cBegin id r =>
+    have hrf : r = false := by
+      cases r
+      · rfl
+      · exact absurd rfl hnt
+    subst hrf
+    simp only [cstep] at hs
+    split at hs
+    · cases hs
+    · cases hs
+      refine ⟨hr, hnr, ?_, ?_⟩
+      · intro c hc
+        rcases List.mem_cons.1 hc with rfl | hc
+        · rfl
+        · exact hre c hc
+      · intro c hc p hp
+        rcases List.mem_cons.1 hc with rfl | hc
+        · simp at hp
+        · exact hseen c hc p hp
+  | cNow id =>
+    simp only [cstep] at hs
+    split at hs
+    · split at hs
+      · cases hs
+        refine ⟨hr, hnr, ?_, ?_⟩
+        · intro c' hc'
+          obtain ⟨c, hc, hcc | ⟨_, hcc⟩⟩ := mem_updCl hc' <;> subst hcc
+          · exact hre c hc
+          · split <;> exact hre c hc
+        · intro c' hc' p hp
+          obtain ⟨c, hc, hcc | ⟨_, hcc⟩⟩ := mem_updCl hc' <;> subst hcc
+          · exact hseen c hc p hp
+          · split at hp <;> exact hseen c hc p hp
+      · cases hs
+    · cases hs
+  | cVisit id k0 =>
+    simp only [cstep] at hs
+    split at hs
+    · split at hs
+      · cases hs
+        refine ⟨hr, hnr, ?_, ?_⟩
+        · intro c' hc'
+          obtain ⟨c, hc, hcc | ⟨_, hcc⟩⟩ := mem_updCl hc' <;> subst hcc
+          · exact hre c hc
+          · split
+            · show (visit s.m c k0).isReset = false
+              rw [(visit_props s.m c k0).2.2.2.1]; exact hre c hc
+            · exact hre c hc
+        · intro c' hc' p hp hpk
+          obtain ⟨c, hc, hcc | ⟨_, hcc⟩⟩ := mem_updCl hc' <;> subst hcc
+          · exact hseen c hc p hp hpk
+          · by_cases hsc : c.phase = Phase.scanning
+            · simp only [hsc, if_true] at hp
+              have hp' : p ∈ (visit s.m c k0).keys := hp
+              unfold visit at hp'
+              split at hp'
+              · rename_i e0 st0 hg
+                split at hp'
+                · rcases List.mem_append.1 hp' with h1 | h1
+                  · exact hseen c hc p h1 hpk
+                  · simp only [List.mem_singleton] at h1
+                    subst h1
+                    simp only at hpk
+                    subst hpk
+                    have := hA.sub _ _ hg
+                    rw [hr] at this
+                    simp only [Option.some.injEq, Prod.mk.injEq] at this
+                    exact this.2.symm
+                · exact hseen c hc p hp' hpk
+              · exact hseen c hc p hp' hpk
+            · simp only [hsc, if_false] at hp
+              exact hseen c hc p hp hpk
+      · cases hs
+    · cases hs
+  | cSeal id =>
+    simp only [cstep] at hs
+    split at hs
+    · split at hs
+      · cases hs
+        refine ⟨hr, hnr, ?_, ?_⟩
+        · intro c' hc'
+          obtain ⟨c, hc, hcc | ⟨_, hcc⟩⟩ := mem_updCl hc' <;> subst hcc
+          · exact hre c hc
+          · split <;> exact hre c hc
+        · intro c' hc' p hp
+          obtain ⟨c, hc, hcc | ⟨_, hcc⟩⟩ := mem_updCl hc' <;> subst hcc
+          · exact hseen c hc p hp
+          · split at hp <;> exact hseen c hc p hp
+      · cases hs
+    · cases hs
+  | cDelOne id k0 st0 =>
+    simp only [cstep] at hs
+    split at hs
+    · rename_i c0 hfind
+      obtain ⟨hc0, _⟩ := findCl_some hfind
+      split at hs
+      · rename_i hcond
+        have hcls : (∀ c ∈ updCl s.cls id (fun c => { c with keys := c.keys.filter (fun p => p != (k0, st0)) }), c.isReset = false) ∧
+            (∀ c ∈ updCl s.cls id (fun c => { c with keys := c.keys.filter (fun p => p != (k0, st0)) }),
+              ∀ p ∈ c.keys, p.1 = k → p.2 = st) := by
+          constructor
+          · intro c' hc'
+            obtain ⟨c, hc, hcc | ⟨_, hcc⟩⟩ := mem_updCl hc' <;> subst hcc <;> exact hre c hc
+          · intro c' hc' p hp
+            obtain ⟨c, hc, hcc | ⟨_, hcc⟩⟩ := mem_updCl hc' <;> subst hcc
+            · exact hseen c hc p hp
+            · exact hseen c hc p (List.mem_filter.1 hp).1
+        split at hs
+        · cases hs; exact ⟨hr, hnr, hcls.1, hcls.2⟩
+        · rename_i e1 st1 hg
+          split at hs
+          · cases hs
+            refine ⟨?_, hnr, hcls.1, hcls.2⟩
+            show mget (if c0.isReset = true then mdelKeys s.ref [k0] else s.ref) k = some (e, st)
+            rw [hre c0 hc0]
+            simpa using hr
+          · rename_i hne
+            cases hs
+            refine ⟨hr, ?_, hcls.1, hcls.2⟩
+            intro hmem
+            rcases List.mem_cons.1 hmem with heq | hmem
+            · simp only [Prod.mk.injEq] at heq
+              obtain ⟨hk, hst⟩ := heq
+              subst hk
+              have h1 := hseen c0 hc0 (k, st0) hcond.2 rfl
+              simp only at h1
+              exact hne (by rw [← hst, h1])
+            · exact hnr hmem
+      · cases hs
+    · cases hs
+  | cEnd id =>
+    simp only [cstep] at hs
+    split at hs
+    · split at hs
+      · cases hs
+        exact ⟨hr, hnr, fun c hc => hre c (List.mem_filter.1 hc).1,
+               fun c hc => hseen c (List.mem_filter.1 hc).1⟩
+      · cases hs
+    · cases hs
+  | bgTake =>
+    simp only [cstep] at hs
+    split at hs
+    · cases hs
+      refine ⟨hr, hnr, ?_, ?_⟩
+      · intro c hc
+        rcases List.mem_cons.1 hc with rfl | hc
+        · rfl
+        · exact hre c hc
+      · intro c hc p hp
+        rcases List.mem_cons.1 hc with rfl | hc
+        · simp at hp
+        · exact hseen c hc p hp
+    · cases hs
+  | bgExit =>
+    simp only [cstep] at hs
+    split at hs
+    · cases hs; exact ⟨hr, hnr, hre, hseen⟩
+    · cases hs
+  | stopCall c =>
+    simp only [cstep] at hs
+    split at hs
+    · cases hs
+    · cases hs; exact ⟨hr, hnr, hre, hseen⟩
+  | stopReturn c =>
+    simp only [cstep] at hs
+    split at hs
+    · cases hs; exact ⟨hr, hnr, hre, hseen⟩
+    · cases hs
+
+theorem intact_run {maxTTL t0 period : Int} {k : Key} {e : Entry} {st : Nat} :
+    ∀ (ls : List Label) (s s' : CState), Reach maxTTL t0 period s → Intact s k e st →
+      crun s ls = some s' → (∀ l ∈ ls, ¬ Touches k l) → Intact s' k e st := by
+  intro ls
+  induction ls with
+  | nil => intro s s' _ h hr _; simp only [crun, Option.some.injEq] at hr; subst hr; exact h
+  | cons l ls ih =>
+    intro s s' hreach h hr hnt
+    simp only [crun] at hr
+    cases hst : cstep s l with
+    | none => simp [hst] at hr
+    | some s1 =>
+      simp only [hst] at hr
+      exact ih s1 s' (Reach.step _ hreach hst)
+        (intact_step (cinv_reach hreach).1 h hst (hnt l (by simp))) hr
+        (fun l' hl' => hnt l' (List.mem_cons_of_mem _ hl'))
 
 end Kit.TTLCache
